@@ -44,3 +44,41 @@ func init() {
 		RealStub: map[string]string{"lib/imgbundler (bundle, runWorkers, worker, httpGet, cache)": "real", "net/http client": "real client over a simulated RoundTripper", "HTTP servers": "stub (tape-driven responses and body chunking)", "file system": "real kernel on a tmp sandbox with tape-driven fault points at openat/read", "clock, timers, context deadlines": "synctest fake clock", "goroutine scheduling": "simulator (park points worker.start/worker.done + every I/O step)", "map iteration / select order": "runtime seam, salted per run"},
 	}
 }
+
+var watchRealStub = map[string]string{
+	"d2cli.Run --watch (flag parsing, watcher, watchLoop, compileLoop, compile, render, Write, broadcast, handleWatch, writeLoop, close)": "real",
+	"net/http server, xhttp.Serve, coder/websocket (server and client side)":                                                              "real, over net.Pipe",
+	"layout engine":                       "stub plugin 'simstub' by default, real dagre in ~8% of runs",
+	"fsnotify":                            "stub module (simulated inotify: per-inode watches, queueing, auto-removal on delete/rename)",
+	"TCP listener / browsers / editor / operator": "simulated actors driven by the tape",
+	"kernel file system":                  "real (tmp sandbox); scheduling points when the compiler opens sources",
+	"clock and timers":                    "synctest fake clock; jumps stop early when a goroutine reaches a park point",
+	"goroutine scheduling":                "simulator: 21 park points in watch.go + every actor step; one release per decision",
+	"map iteration / select order":        "runtime seam, salted per run",
+}
+
+func init() {
+	props["C44"] = propSpec{
+		Engine: "watchsim", Level: "exploration",
+		QuickS: 75, ThoroughS: 1500, DetSamples: 24, DetSamplesT: 200,
+		Rule: "one run = the real `d2 --watch` in a synctest bubble with 0-5 simulated browser clients (connect at any time, read, stall, close, drop, drop mid-handshake), 0-8 saves of the input and optionally of an imported file in three editor styles (truncate+write in chunks, write temp+rename over, rename away+create, with torn intermediate states), simulated inotify (duplicates, dropped write events, transiently failing re-watch). The tape picks which parked goroutine or actor proceeds and when the clock advances. After the last save faults stop and the run continues for 60 simulated seconds; then per-client order and final delivery are checked. Non-trivial = at least one client and one save; distinct = distinct hash of the full decision sequence.",
+		Assumptions: []string{
+			"environment: the last save leaves the file present; modification times increase with every save; only plain Write events are ever dropped (the watch stays and the 10 s poll can still see the change); fs event loss that also loses the watch (inotify queue overflow) is outside the property's quantifier",
+			"duplicates are allowed (the statement allows them and the real watcher re-broadcasts on its poll tick)",
+			"final delivery is demanded only of clients that are still connected; a client the simulator kept from reading for >= 25 simulated seconds may be disconnected by the server's 30 s write timeout",
+			"liveness bound once faults stop: 60 simulated seconds",
+			"page GETs (board switching) are not simulated",
+		},
+		RealStub: watchRealStub,
+	}
+	props["C45"] = propSpec{
+		Engine: "watchsim", Level: "exploration",
+		QuickS: 75, ThoroughS: 1200, DetSamples: 24, DetSamplesT: 200,
+		Rule: "same simulator as C44 with the operator's SIGTERM/SIGINT delivered at a tape-chosen step (30x more likely while a client sits between admission, upgrade and registration or is mid-handshake); clients keep connecting, stalling and dropping during shutdown. Checked: at the instant close() returns every started handler has exited and admitted = exited + failed upgrades; no admission is ordered after close began; `d2 --watch` returns without xmain's 1-minute forced exit (the clock only runs while the simulator holds no server goroutine); no panic; no d2cli goroutine alive two simulated hours later. Non-trivial = at least one client; distinct = distinct decision-sequence hash.",
+		Assumptions: []string{
+			"trace events ws.admitted and close.begin are emitted under the watcher's client mutex, so their order in the trace is the lock order",
+			"the shutdown bound is applied with the simulator's own delays excluded; simulated clients may still stall for up to 2 simulated minutes after the signal",
+		},
+		RealStub: watchRealStub,
+	}
+}
